@@ -16,7 +16,7 @@ NEG = {"<": ">=", ">": "<=", "<=": ">", ">=": "<", "==": "!=", "!=": "=="}
 
 
 class Operand:
-    __slots__ = ("const", "fields", "calls", "incr", "text", "locals", "node", "strs")
+    __slots__ = ("const", "fields", "calls", "incr", "text", "locals", "node", "strs", "held")
 
     def __init__(self, f, i):
         j = ex.skip(f, i)
@@ -33,6 +33,7 @@ class Operand:
         self.locals = set()
         self.strs = set()
         self.incr = None
+        self.held = _held_call(f, j)
         for n in ex.walk(f, j):
             e = f.exprs[n]
             k = e["k"]
@@ -92,15 +93,52 @@ class Atom:
     def call_cmp(self, callee, rel, value):
         if self.R is None:
             return False
-        if callee in self.L.calls and self.R.const == value:
+        if (callee in self.L.calls or callee == getattr(self.L, "held", None)) and self.R.const == value:
             return self.rel == rel
-        if callee in self.R.calls and self.L.const == value:
+        if (callee in self.R.calls or callee == getattr(self.R, "held", None)) and self.L.const == value:
             return FLIP[self.rel] == rel
         return False
 
 
+def _held_call(f, j):
+    """Callee when node j is a local whose only definition is the result of a call, else None."""
+    e = f.exprs[j]
+    k = 0
+    while e["k"] == "cast" and e.get("c") and k < 6:
+        e = f.exprs[ex.skip(f, e["c"][0])]
+        k += 1
+    if e["k"] != "ref" or e.get("dk") != "local":
+        return None
+    nm = e["name"]
+    c = f._cache.setdefault("holds_call", None)
+    if c is None:
+        from . import flow
+        defs = {}
+        for bid, i in flow.all_events(f):
+            for lhs, var, op, rhs in flow.stores(f, i):
+                who = var["name"] if var is not None else None
+                if who is None and lhs is not None:
+                    le = f.exprs[ex.skip(f, lhs)]
+                    who = le.get("name") if le["k"] == "ref" and le.get("dk") == "local" else None
+                if who is not None and (rhs is not None or var is None):
+                    defs.setdefault(who, []).append((op, rhs))
+        c = {}
+        for who, ds in defs.items():
+            if len(ds) == 1 and ds[0][0] == "=" and ds[0][1] is not None:
+                r = f.exprs[ex.skip(f, ds[0][1])]
+                k = 0
+                while r["k"] == "cast" and r.get("c") and k < 6:
+                    r = f.exprs[ex.skip(f, r["c"][0])]
+                    k += 1
+                if r["k"] == "call" and r.get("callee"):
+                    c[who] = r["callee"]
+        f._cache["holds_call"] = c
+    return c.get(nm)
+
+
 class _Zero:
     const = 0
+    held = None
     fields = frozenset()
     calls = frozenset()
     locals = frozenset()
